@@ -22,7 +22,7 @@ Definition is_ackrst (t : mtype) : bool := match t with ACK | RST => true | _ =>
 Record wire := { w_type : mtype; w_code : Z; w_mid : Z; w_token : list Z; w_payload : list Z }.
 
 (* which resource of the test site the Uri-Path names *)
-Inductive hkind := HFast | HSlow | HFail | HMissing | HSuppress | HBadReq | HRel | HUnrel.
+Inductive hkind := HFast | HSlow | HFail | HMissing | HSuppress | HBadReq | HRel | HUnrel | HCached.
 
 (* an incoming datagram: remote endpoint, header, Uri-Path (as resource kind), No-Response option, payload *)
 Record inmsg := { i_remote : Z; i_type : mtype; i_code : Z; i_mid : Z; i_token : list Z;
@@ -146,7 +146,7 @@ Definition mm_dispatch_error (r : Z) (s : st) : st :=
                                  else s) (exchanges s) s in
   set_backlogs (aremove Z.eqb r (backlogs s)) s.
 
-(* messagemanager.py:543 _send_via_transport = message_interface.send(message). [Send] records that the datagram was handed
+(* messagemanager.py:548 _send_via_transport = message_interface.send(message). [Send] records that the datagram was handed
    to the transport; a transport that refuses it says so from inside send() by calling dispatch_error (udp6: sendmsg
    failing with ENETUNREACH/EACCES; here: the harness's interface for the remotes in [refused]) *)
 Definition send_log (r : Z) (w : wire) (s : st) : st := emit (Send (now s) r w) s.
@@ -155,7 +155,8 @@ Definition refusal (r : Z) (s : st) : st :=
   if is_refused r s then mm_dispatch_error r (emit (Refused (now s) r) s) else s.
 Definition _send_via_transport (r : Z) (w : wire) (s : st) : st := refusal r (send_log r w s).
 
-(* messagemanager.py:224 — as fixed in cd09d80: only ACK and RST are remembered *)
+(* messagemanager.py:224 — as fixed in cd09d80: only ACK and RST are remembered; as fixed in 75465d6: a snapshot
+   (message.copy()) is stored, i.e. a value *)
 Definition _store_response_for_duplicates (r : Z) (w : wire) (s : st) : st :=
   if negb (is_ackrst (w_type w)) then s
   else
@@ -165,11 +166,11 @@ Definition _store_response_for_duplicates (r : Z) (w : wire) (s : st) : st :=
     | None => s
     end.
 
-(* messagemanager.py:315 *)
+(* messagemanager.py:320 *)
 Definition _schedule_retransmit (r : Z) (w : wire) (timeout counter : Z) (s : st) : st * Z :=
   call_later timeout (TRetransmit r w timeout counter) s.
 
-(* messagemanager.py:242 *)
+(* messagemanager.py:247 *)
 Definition _add_exchange (r : Z) (w : wire) (s : st) : st :=
   let s := match aget Z.eqb r (backlogs s) with
            | None => set_backlogs (aset Z.eqb r [] (backlogs s)) s
@@ -177,7 +178,7 @@ Definition _add_exchange (r : Z) (w : wire) (s : st) : st :=
   let '(s, h) := _schedule_retransmit r w (ack_timeout s) 0 s in
   set_exchanges (aset key_eqb (r, w_mid w) h (exchanges s)) s.
 
-(* messagemanager.py:528; [monitor] = whether a messageerror_monitor was passed.
+(* messagemanager.py:533; [monitor] = whether a messageerror_monitor was passed.
    The assertion failure leaves the method (and its callers: nothing follows the call in any of them). *)
 Definition _send_initially (r : Z) (w : wire) (monitor : bool) (s : st) : st :=
   match w_type w with
@@ -187,11 +188,11 @@ Definition _send_initially (r : Z) (w : wire) (monitor : bool) (s : st) : st :=
   | _ => _send_via_transport r w (_store_response_for_duplicates r w s)
   end.
 
-(* messagemanager.py:548 *)
+(* messagemanager.py:553 *)
 Definition _next_message_id (s : st) : st * Z :=
   (set_message_id (Z.land 65535 (1 + message_id s)) s, message_id s).
 
-(* messagemanager.py:554 *)
+(* messagemanager.py:559 *)
 Definition _send_empty_ack (r mid : Z) (s : st) : st :=
   _send_initially r {| w_type := ACK; w_code := EMPTY; w_mid := mid; w_token := []; w_payload := [] |} false s.
 
@@ -199,7 +200,7 @@ Definition _send_empty_ack (r mid : Z) (s : st) : st :=
 Definition has_exchange_with (r : Z) (s : st) : bool :=
   existsb (fun e => fst (fst e) =? r) (exchanges s).
 
-(* messagemanager.py:287; the while loop, structurally on a bound that exceeds the backlog length *)
+(* messagemanager.py:292; the while loop, structurally on a bound that exceeds the backlog length *)
 Fixpoint _continue_backlog_loop (fuel : nat) (r : Z) (s : st) : st :=
   match fuel with
   | O => s
@@ -219,14 +220,14 @@ Definition _continue_backlog (r : Z) (s : st) : st :=
   | Some b => _continue_backlog_loop (S (S (length b))) r s
   end.
 
-(* messagemanager.py:265 *)
+(* messagemanager.py:270 *)
 Definition _remove_exchange (r mid : Z) (s : st) : st :=
   match aget key_eqb (r, mid) (exchanges s) with
   | None => s
   | Some h => _continue_backlog r (cancel h (set_exchanges (aremove key_eqb (r, mid) (exchanges s)) s))
   end.
 
-(* messagemanager.py:337; the timer that fired has already left [timers] *)
+(* messagemanager.py:342; the timer that fired has already left [timers] *)
 Definition _retransmit (r : Z) (w : wire) (timeout counter : Z) (s : st) : st :=
   let key := (r, w_mid w) in
   match aget key_eqb key (exchanges s) with
@@ -245,7 +246,7 @@ Definition _retransmit (r : Z) (w : wire) (timeout counter : Z) (s : st) : st :=
   end.
 
 (* ------------------------------------------------------------------ responses of the application *)
-(* messagemanager.py:432 send_message, for a response [a] to request [m] (token and remote were filled in by
+(* messagemanager.py:437 send_message, for a response [a] to request [m] (token and remote were filled in by
    tokenmanager.py:128 on_event); no multicast, no shutdown *)
 Definition send_message (m : inmsg) (a : appmsg) (s : st) : st :=
   let r := i_remote m in
@@ -308,6 +309,10 @@ Definition render_to_pipe (m : inmsg) (s : st) : st :=
   | HBadReq => ok 128 None None
   | HRel => ok 69 None (Some true)
   | HUnrel => ok 69 None (Some false)
+  | HCached =>   (* the resource returns ONE pre-built Message object for every request; since 75465d6 the reply remembered for
+                    duplicates is a snapshot (message.copy()), so for requests answered at once by a piggy-backed ACK the
+                    object behaves like a value *)
+      finish m {| a_code := 69; a_payload := [99; 97; 99; 104; 101; 100]; a_nr := None; a_rel := None |} s
   | HFail => finish m (error_message ERuntime) s
   | HMissing => finish m (error_message ENotFound) s
   | HSlow => set_waiting (aset Z.eqb sid m (waiting s)) s
@@ -326,7 +331,10 @@ Definition process_request (m : inmsg) (s : st) : st :=
 Definition handler_respond (sid : Z) (a : appmsg) (s : st) : st :=
   match aget Z.eqb sid (waiting s) with
   | None => s
-  | Some m => finish m (render_copy m a) (set_waiting (aremove Z.eqb sid (waiting s)) s)
+  | Some m =>
+      (* resource.py:143 (fix of C09): a render method returning a non-response code is a ValueError, answered 5.00 *)
+      finish m (if is_response (a_code a) then render_copy m a else error_message ERuntime)
+             (set_waiting (aremove Z.eqb sid (waiting s)) s)
   end.
 Definition handler_raise (sid : Z) (k : exnkind) (s : st) : st :=
   match aget Z.eqb sid (waiting s) with
@@ -349,11 +357,11 @@ Definition _deduplicate_message (m : inmsg) (s : st) : st * bool :=
       (set_recent (recent s ++ [(key, None)]) s, false)
   end.
 
-(* messagemanager.py:370 *)
+(* messagemanager.py:375 *)
 Definition _process_ping (m : inmsg) (s : st) : st :=
   _send_initially (i_remote m) {| w_type := RST; w_code := EMPTY; w_mid := i_mid m; w_token := []; w_payload := [] |} false s.
 
-(* messagemanager.py:378 *)
+(* messagemanager.py:383 *)
 Definition _process_request (m : inmsg) (s : st) : st :=
   let s :=
     match i_type m with
@@ -396,7 +404,7 @@ Fixpoint min_timer (l : list (Z * Z * anytimer)) : option (Z * Z * anytimer) :=
   | x :: r => match min_timer r with None => Some x | Some y => if earlier y x then Some y else Some x end
   end.
 
-(* on_timeout of _process_request, messagemanager.py:384 *)
+(* on_timeout of _process_request, messagemanager.py:389 *)
 Definition on_timeout (r : Z) (tok : list Z) (s : st) : st :=
   match aget tokkey_eqb (r, tok) (piggy s) with
   | None => emit (Exn (now s) KeyError) s
